@@ -29,7 +29,9 @@ CASES = [
     dict(expect="fire", desc="failure path no longer restores idle", names="N5-idle-restored", edits=[
          dict(file=T, old="        except BaseException:\n            with self._lock:\n                self._idle = True\n                self._queue.clear()\n            raise\n",
               new="        except BaseException:\n            with self._lock:\n                self._queue.clear()\n            raise\n")]),
-    dict(expect="silent", desc="failure path written as try/finally with a success flag", edits=[
+    dict(expect="fire", names="N5-idle-restored", desc="seed C30-r4/2: the failure path resets the trampoline only for Exception (KeyboardInterrupt / CancelledError leave it busy)", edits=[
          dict(file=T, old="        try:\n            self._run()\n        except BaseException:\n            with self._lock:\n                self._idle = True\n                self._queue.clear()\n            raise\n",
               new="        try:\n            self._run()\n        except Exception:\n            with self._lock:\n                self._idle = True\n                self._queue.clear()\n            raise\n")]),
+    dict(expect="fire", desc="seed C30-r4/1: schedule() stamps immediate actions with DELTA_ZERO instead of now", names="N10-immediate-is-now", edits=[dict(file="reactivex/scheduler/trampolinescheduler.py",
+         old="        return self.schedule_absolute(self.now, action, state=state)", new="        return self.schedule_absolute(DELTA_ZERO, action, state=state)")]),
 ]
